@@ -85,7 +85,7 @@ def main():
     logging.disable(logging.CRITICAL)
     from xv import core
     mod, hs = core.load_harnesses(prop)
-    harnesses = [h for h in mod.HARNESSES if a.only in (None, h.name)]
+    harnesses = [h for h in mod.HARNESSES if a.only in (None, h.name) and (tier in h.tiers or a.only == h.name)]
     kfs = load_kf(prop)
     kf_open = [e for e in kfs if e.get("status") == "open"]
     kf_fixed = [e for e in kfs if e.get("status") == "fixed"]
